@@ -1,2 +1,466 @@
-(* C10 -- statements only. *)
-From UP Require Import Base.Chars Model.Uri.
+(* C10 -- reference creation is the inverse of reference resolution.  Statements only.
+
+   All theorems are about the pure-tier models [remove_base m src base] (Model/Shorten.v,
+   uriRemoveBaseUriMm; m = domainRootMode) and [add_base false r base] (Model/Resolve.v,
+   uriAddBaseUriExMm without options), for every URI object, not only parsed ones.
+
+   Vocabulary (Proofs/ShortenProofs.v, Proofs/ResolveProofs.v, Spec/NormalWf.v):
+     components u     every field of the object but [owner]
+     auth_fields u    (userInfo, hostText, ip4, ip6, ipFuture, portText)
+     one_kind u       at most one of ip4 / ip6 / ipFuture is set (uriCopyAuthority keeps only one)
+     wf u             what the parser guarantees of an object (see Props/C06.v)
+     nodot s          the segment s is neither "." nor ".."
+     equals_authority uriEqualsAuthority: user info, port, and the host in the kind of the first URI
+     canon10 u        dot segments removed (uriRemoveDotSegmentsAbsolute), an empty path under a host
+                      replaced by the single empty segment ("/"), and the single empty segment of a
+                      host-less URI dropped (uriFixEmptyTrailSegment, as at the end of every parse and
+                      every resolution; both forms print the same text)
+     same_target a b  components (canon10 a) = components (canon10 b): the comparison of the property
+     c10_good u       an object as the parser makes it, with a registered name as host if any
+     c10_failing_shape m src base
+                      the named shapes on which the round trip is known to fail (section E)
+     walk_ok src base the sufficient condition of the round trip in the mode that walks the two paths:
+                      both absolute, same scheme, same authority, same root (both with a host, or
+                      both host-less and both rooted or both rootless), the common-prefix walk leaves
+                      segments on both sides, no dot segment in the source path and in the rest of
+                      the base path, no NUL in the source's segments, wf of both, and the source is
+                      not "host-less with the single empty segment as path"
+     walk_ok_dotted   the same without the two clauses on the source path
+
+   The property as a whole is false of the code as it is: C10_roundtrip_refuted (open findings
+   D8a, D8b, D8c, D8d, D8f) and C10_roundtrip_refuted_dotted_base (a base path with a dot segment). *)
+From Coq Require Import List NArith Bool String.
+From UP Require Import Base.Chars Model.Uri Model.Common Model.Compare Model.Resolve Model.Shorten
+  Model.Recompose Spec.NormalWf Proofs.DotSegments Proofs.ResolveProofs Proofs.Findings10
+  Proofs.ShortenProofs.
+Import ListNotations.
+Local Open Scope N_scope.
+
+(* ---- A. a non-absolute base or source is rejected with its own error code ------------------------ *)
+Theorem C10_rel_base : forall m src base, scheme base = None ->
+  remove_base m src base = (URI_ERROR_REMOVEBASE_REL_BASE, empty_uri).
+Proof. exact remove_base_rel_base. Qed.
+Print Assumptions C10_rel_base.
+
+Theorem C10_rel_source : forall m src base, scheme base <> None -> scheme src = None ->
+  remove_base m src base = (URI_ERROR_REMOVEBASE_REL_SOURCE, empty_uri).
+Proof. exact remove_base_rel_source. Qed.
+Print Assumptions C10_rel_source.
+
+(* two absolute URIs: the call succeeds; query and fragment of the reference are the source's *)
+Theorem C10_success : forall m src base, scheme src <> None -> scheme base <> None ->
+  fst (remove_base m src base) = URI_SUCCESS.
+Proof. exact remove_base_success. Qed.
+Print Assumptions C10_success.
+
+Theorem C10_query_fragment : forall m src base, scheme src <> None -> scheme base <> None ->
+  query (snd (remove_base m src base)) = query src
+  /\ fragment (snd (remove_base m src base)) = fragment src.
+Proof. exact rb_query_fragment. Qed.
+Print Assumptions C10_query_fragment.
+
+(* ---- B. the schemes differ: the reference is the source unchanged -------------------------------- *)
+(* field by field; the authority as uriCopyAuthority leaves it, which is the source's own when at most
+   one host kind is set *)
+Theorem C10_other_scheme : forall m src base, scheme src <> None -> scheme base <> None ->
+  range_eqb (scheme src) (scheme base) = false ->
+  fst (remove_base m src base) = URI_SUCCESS
+  /\ components (snd (remove_base m src base)) = components (copy_authority src src)
+  /\ (one_kind src = true -> components (snd (remove_base m src base)) = components src).
+Proof. exact remove_base_other_scheme. Qed.
+Print Assumptions C10_other_scheme.
+
+(* ---- C. what the reference leaves out ------------------------------------------------------------- *)
+(* same scheme: no scheme in the reference, when a reference without scheme can resolve to the source
+   (the source has a host, or the base has none, or the authorities are equal) *)
+Theorem C10_scheme_omitted : forall m src base, scheme src <> None -> scheme base <> None ->
+  range_eqb (scheme src) (scheme base) = true ->
+  is_host_set src = true \/ is_host_set base = false \/ equals_authority src base = true ->
+  scheme (snd (remove_base m src base)) = None.
+Proof. exact rb_scheme_omitted. Qed.
+Print Assumptions C10_scheme_omitted.
+
+(* ... and otherwise (host-less source, base with a host) it is the source unchanged, scheme included *)
+Theorem C10_scheme_kept : forall m src base, scheme src <> None -> scheme base <> None ->
+  range_eqb (scheme src) (scheme base) = true -> equals_authority src base = false ->
+  is_host_set src = false -> is_host_set base = true ->
+  components (snd (remove_base m src base)) = components src.
+Proof. exact rb_scheme_kept. Qed.
+Print Assumptions C10_scheme_kept.
+
+(* same scheme and the whole authority shared (user info, host, port): neither scheme nor authority *)
+Theorem C10_authority_omitted : forall m src base, scheme src <> None -> scheme base <> None ->
+  range_eqb (scheme src) (scheme base) = true -> equals_authority src base = true ->
+  let r := snd (remove_base m src base) in
+  scheme r = None /\ auth_fields r = (None, None, None, None, None, None) /\ is_host_set r = false.
+Proof. exact rb_authority_omitted. Qed.
+Print Assumptions C10_authority_omitted.
+
+(* same scheme, authorities differ: authority, path and flag are the source's *)
+Theorem C10_authority_kept : forall m src base, scheme src <> None -> scheme base <> None ->
+  range_eqb (scheme src) (scheme base) = true -> equals_authority src base = false ->
+  let r := snd (remove_base m src base) in
+  auth_fields r = auth_fields (copy_authority src src)
+  /\ (one_kind src = true -> auth_fields r = auth_fields src)
+  /\ pathSegs r = pathSegs src /\ absolutePath r = absolutePath src
+  /\ query r = query src /\ fragment r = fragment src.
+Proof. exact rb_authority_kept. Qed.
+Print Assumptions C10_authority_kept.
+
+(* "share the entire authority" in fields: uriEqualsAuthority is equality of user info, of port and
+   of the host in the kind of the first URI, for texts without NUL (uriCompareRange is strncmp) *)
+Theorem C10_equals_authority_is_field_equality : forall a b, auth_nonul a = true ->
+  (equals_authority a b = true <-> userInfo a = userInfo b /\ portText a = portText b /\ host_same a b).
+Proof. exact equals_authority_fields. Qed.
+Print Assumptions C10_equals_authority_is_field_equality.
+
+(* domain-root mode: the path of the reference is absolute; it is the source's, with "." in front when
+   it begins with an empty segment followed by another (uriFixAmbiguity) *)
+Theorem C10_domain_root_absolute : forall src base, scheme src <> None -> scheme base <> None ->
+  range_eqb (scheme src) (scheme base) = true -> equals_authority src base = true ->
+  let r := snd (remove_base true src base) in
+  absolutePath r = true /\ pathSegs r = fixamb_p false true (pathSegs src).
+Proof. exact rb_domain_root. Qed.
+Print Assumptions C10_domain_root_absolute.
+
+(* the other mode: the reference is a rootless path, one ".." for every segment left of the base but
+   the last, then the segments left of the source (guarded by "." when the path would begin with an
+   empty segment or with one containing ":"), plus the source's query and fragment *)
+Theorem C10_reference_path : forall src base s b, scheme src <> None -> scheme base <> None ->
+  range_eqb (scheme src) (scheme base) = true -> equals_authority src base = true ->
+  skip_common (pathSegs src) (pathSegs base) = (s, b) ->
+  snd (remove_base false src base)
+  = set_fragment (fragment src) (set_query (query src)
+      (set_pathSegs (parents b ++ rest_segments (match parents b with [] => true | _ => false end) s) empty_uri)).
+Proof. exact rb_walk. Qed.
+Print Assumptions C10_reference_path.
+
+(* the walk splits both paths at a common prefix (segment by segment equal under uriCompareRange) *)
+Theorem C10_common_prefix : forall s b s' b', skip_common s b = (s', b') ->
+  exists c cb, s = c ++ s' /\ b = cb ++ b' /\ Forall2 seg_req c cb.
+Proof. exact skip_common_split. Qed.
+Print Assumptions C10_common_prefix.
+
+(* ---- D. the round trip, where it holds ------------------------------------------------------------ *)
+(* The property claims the round trip for all absolute S and B.  That is false (section E).
+
+   C10_roundtrip is the property with the failing shapes carved out: for objects as the parser makes
+   them (c10_good: wf, registered-name host or none, no NUL, user info / port only with a host), both
+   modes, any paths (dot segments included), outside c10_failing_shape, the reference resolves back to
+   S under same_target.  Every clause of c10_failing_shape contains a real failure
+   (C10_failing_shapes_inhabited, C10_roundtrip_refuted).
+
+   The _partial theorems are the cases it is made of, each for all inputs of its shape and with the
+   exact fields of the result; they also cover IP-literal hosts (hypothesis auth_fields src =
+   auth_fields base: the result carries the base's spelling of a literal):
+     - C10_roundtrip_partial: same scheme and authority, the path walk, under walk_ok: the result is S
+       field by field; C10_roundtrip_dotted_partial: any source path, under same_target;
+     - C10_roundtrip_same_path_partial: equal paths (the empty reference);
+     - C10_roundtrip_copy_partial: the schemes differ, or the scheme is kept;
+     - C10_roundtrip_other_authority_partial: same scheme, other authority, source with a host;
+     - C10_roundtrip_domain_root_partial: same scheme and authority, domain-root mode, rooted source.
+   Missing, i.e. neither proved nor refuted: objects the parser never makes (segments with NUL, several
+   host kinds set, a host-less URI with user info or port) and pairs inside c10_failing_shape that
+   happen to round-trip (the shape is sufficient for nothing; it is where the known failures live). *)
+Theorem C10_roundtrip : forall m src base, c10_good src = true -> c10_good base = true ->
+  scheme src <> None -> scheme base <> None -> c10_failing_shape m src base = false ->
+  let r := snd (remove_base m src base) in
+  fst (remove_base m src base) = URI_SUCCESS
+  /\ fst (add_base false r base) = URI_SUCCESS
+  /\ same_target (snd (add_base false r base)) src.
+Proof. exact roundtrip_carved. Qed.
+Print Assumptions C10_roundtrip.
+
+Theorem C10_roundtrip_partial : forall src base, walk_ok src base = true ->
+  let r := snd (remove_base false src base) in
+  let back := snd (add_base false r base) in
+  fst (remove_base false src base) = URI_SUCCESS
+  /\ fst (add_base false r base) = URI_SUCCESS
+  /\ scheme back = scheme src
+  /\ auth_fields back = auth_fields (copy_authority empty_uri base)
+  /\ pathSegs back = pathSegs src /\ absolutePath back = absolutePath src
+  /\ query back = query src /\ fragment back = fragment src.
+Proof. exact roundtrip_walk. Qed.
+Print Assumptions C10_roundtrip_partial.
+
+(* the authority of the result is a copy of the base's, which uriEqualsAuthority only relates to the
+   source's (C10_equals_authority_is_field_equality); when the fields are equal the result is S *)
+Theorem C10_roundtrip_partial_target : forall src base, walk_ok src base = true ->
+  one_kind base = true -> auth_fields src = auth_fields base ->
+  let back := snd (add_base false (snd (remove_base false src base)) base) in
+  components back = components src /\ same_target back src.
+Proof. exact roundtrip_walk_components. Qed.
+Print Assumptions C10_roundtrip_partial_target.
+
+(* any source path: the comparison is same_target *)
+Theorem C10_roundtrip_dotted_partial : forall src base, walk_ok_dotted src base = true ->
+  let r := snd (remove_base false src base) in
+  let back := snd (add_base false r base) in
+  fst (remove_base false src base) = URI_SUCCESS
+  /\ fst (add_base false r base) = URI_SUCCESS
+  /\ scheme back = scheme src
+  /\ auth_fields back = auth_fields (copy_authority empty_uri base)
+  /\ pathSegs (canon10 back) = pathSegs (canon10 src) /\ absolutePath back = absolutePath src
+  /\ query back = query src /\ fragment back = fragment src.
+Proof. exact roundtrip_walk_dotted. Qed.
+Print Assumptions C10_roundtrip_dotted_partial.
+
+Theorem C10_roundtrip_dotted_partial_target : forall src base, walk_ok_dotted src base = true ->
+  one_kind base = true -> auth_fields src = auth_fields base ->
+  same_target (snd (add_base false (snd (remove_base false src base)) base)) src.
+Proof. exact roundtrip_walk_dotted_target. Qed.
+Print Assumptions C10_roundtrip_dotted_partial_target.
+
+(* equal paths: the reference is empty (query and fragment apart) and inherits the base's query when
+   the source has none -- harmless unless only the base has one *)
+Theorem C10_roundtrip_same_path_partial : forall src base, scheme src <> None -> scheme base <> None ->
+  range_eqb (scheme src) (scheme base) = true -> equals_authority src base = true ->
+  is_host_set src = is_host_set base -> absolutePath src = absolutePath base ->
+  skip_common (pathSegs src) (pathSegs base) = ([], []) ->
+  is_some (query base) && negb (is_some (query src)) = false ->
+  forallb nonul (pathSegs src) = true -> wf src = true ->
+  let r := snd (remove_base false src base) in
+  let back := snd (add_base false r base) in
+  fst (add_base false r base) = URI_SUCCESS
+  /\ scheme back = scheme src
+  /\ auth_fields back = auth_fields (copy_authority empty_uri base)
+  /\ pathSegs (canon10 back) = pathSegs (canon10 src) /\ absolutePath back = absolutePath src
+  /\ query back = query src /\ fragment back = fragment src.
+Proof. exact roundtrip_same_path. Qed.
+Print Assumptions C10_roundtrip_same_path_partial.
+
+Theorem C10_roundtrip_copy_partial : forall m src base, scheme src <> None -> scheme base <> None ->
+  range_eqb (scheme src) (scheme base) = false
+  \/ (equals_authority src base = false /\ is_host_set src = false /\ is_host_set base = true) ->
+  forallb nodot (pathSegs src) = true -> wf src = true -> lone_empty_hostless src = false ->
+  one_kind src = true ->
+  let r := snd (remove_base m src base) in
+  fst (add_base false r base) = URI_SUCCESS
+  /\ components (snd (add_base false r base)) = components src.
+Proof. exact roundtrip_copy. Qed.
+Print Assumptions C10_roundtrip_copy_partial.
+
+Theorem C10_roundtrip_copy_partial_target : forall m src base, scheme src <> None -> scheme base <> None ->
+  range_eqb (scheme src) (scheme base) = false
+  \/ (equals_authority src base = false /\ is_host_set src = false /\ is_host_set base = true) ->
+  wf src = true -> one_kind src = true ->
+  let r := snd (remove_base m src base) in
+  fst (add_base false r base) = URI_SUCCESS /\ same_target (snd (add_base false r base)) src.
+Proof. exact roundtrip_copy_target. Qed.
+Print Assumptions C10_roundtrip_copy_partial_target.
+
+Theorem C10_roundtrip_other_authority_partial : forall m src base,
+  scheme src <> None -> scheme base <> None ->
+  range_eqb (scheme src) (scheme base) = true -> equals_authority src base = false ->
+  is_host_set src = true ->
+  forallb nodot (pathSegs src) = true -> wf src = true -> one_kind src = true ->
+  let r := snd (remove_base m src base) in
+  fst (add_base false r base) = URI_SUCCESS
+  /\ components (snd (add_base false r base)) = components src.
+Proof. exact roundtrip_other_authority. Qed.
+Print Assumptions C10_roundtrip_other_authority_partial.
+
+Theorem C10_roundtrip_other_authority_partial_target : forall m src base,
+  scheme src <> None -> scheme base <> None ->
+  range_eqb (scheme src) (scheme base) = true -> equals_authority src base = false ->
+  is_host_set src = true -> wf src = true -> one_kind src = true ->
+  let r := snd (remove_base m src base) in
+  fst (add_base false r base) = URI_SUCCESS /\ same_target (snd (add_base false r base)) src.
+Proof. exact roundtrip_other_authority_target. Qed.
+Print Assumptions C10_roundtrip_other_authority_partial_target.
+
+(* domain-root mode; with a host an empty source path comes back as "/" *)
+Theorem C10_roundtrip_domain_root_partial : forall src base, scheme src <> None -> scheme base <> None ->
+  range_eqb (scheme src) (scheme base) = true -> equals_authority src base = true ->
+  is_host_set src = is_host_set base -> (is_host_set src = false -> absolutePath src = true) ->
+  forallb nodot (pathSegs src) = true -> wf src = true -> lone_empty_hostless src = false ->
+  let r := snd (remove_base true src base) in
+  let back := snd (add_base false r base) in
+  fst (add_base false r base) = URI_SUCCESS
+  /\ scheme back = scheme src
+  /\ auth_fields back = auth_fields (copy_authority empty_uri base)
+  /\ pathSegs back = (if is_host_set src then match pathSegs src with [] => [[]] | _ => pathSegs src end
+                      else pathSegs src)
+  /\ absolutePath back = absolutePath src
+  /\ query back = query src /\ fragment back = fragment src.
+Proof. exact roundtrip_domain_root. Qed.
+Print Assumptions C10_roundtrip_domain_root_partial.
+
+(* any source path *)
+Theorem C10_roundtrip_domain_root_partial_any : forall src base, scheme src <> None -> scheme base <> None ->
+  range_eqb (scheme src) (scheme base) = true -> equals_authority src base = true ->
+  is_host_set src = is_host_set base -> (is_host_set src = false -> absolutePath src = true) ->
+  wf src = true ->
+  let r := snd (remove_base true src base) in
+  let back := snd (add_base false r base) in
+  fst (add_base false r base) = URI_SUCCESS
+  /\ scheme back = scheme src
+  /\ auth_fields back = auth_fields (copy_authority empty_uri base)
+  /\ pathSegs (canon10 back) = pathSegs (canon10 src)
+  /\ absolutePath back = absolutePath src
+  /\ query back = query src /\ fragment back = fragment src.
+Proof. exact roundtrip_domain_root_any. Qed.
+Print Assumptions C10_roundtrip_domain_root_partial_any.
+
+Theorem C10_roundtrip_domain_root_partial_target : forall src base,
+  scheme src <> None -> scheme base <> None ->
+  range_eqb (scheme src) (scheme base) = true -> equals_authority src base = true ->
+  is_host_set src = is_host_set base -> (is_host_set src = false -> absolutePath src = true) ->
+  wf src = true -> one_kind base = true -> auth_fields src = auth_fields base ->
+  same_target (snd (add_base false (snd (remove_base true src base)) base)) src.
+Proof. exact roundtrip_domain_root_any_target. Qed.
+Print Assumptions C10_roundtrip_domain_root_partial_target.
+
+(* ---- E. the round trip, where it fails ------------------------------------------------------------ *)
+(* [round_trip_fails m S B]: the texts S and B parse to absolute, well-formed objects without dot
+   segments in S; creating the reference and resolving it succeed; the result is not S under same_target.
+   D8a base path a prefix of the source path, D8b source path a prefix of the base path, D8c equal
+   paths and only the base has a query, D8d one path rooted and the other rootless, D8f domain-root
+   mode with a rootless source *)
+Theorem C10_roundtrip_refuted :
+  round_trip_fails false "s://h/a/b" "s://h/a"
+  /\ round_trip_fails false "s://h/a" "s://h/a/b/c"
+  /\ round_trip_fails false "s://h/a" "s://h/a?q"
+  /\ round_trip_fails false "s:/a" "s:b"
+  /\ round_trip_fails true "s:a" "s:b".
+Proof. exact roundtrip_refuted. Qed.
+Print Assumptions C10_roundtrip_refuted.
+
+Theorem C10_roundtrip_refuted_exists : exists m src base,
+  scheme src <> None /\ scheme base <> None /\ wf src = true /\ wf base = true
+  /\ fst (add_base false (snd (remove_base m src base)) base) = URI_SUCCESS
+  /\ ~ same_target (snd (add_base false (snd (remove_base m src base)) base)) src.
+Proof. exact roundtrip_refuted_exists. Qed.
+Print Assumptions C10_roundtrip_refuted_exists.
+
+(* not among the five: a "." or ".." segment of the base below the common prefix is counted as a level *)
+Theorem C10_roundtrip_refuted_dotted_base : round_trip_fails false "s://h/a/b" "s://h/a/./x".
+Proof. exact fails_dotted_base. Qed.
+Print Assumptions C10_roundtrip_refuted_dotted_base.
+
+(* what the six resolve back to *)
+Theorem C10_refuted_texts :
+  back_text false "s://h/a/b" "s://h/a" = txt "s://h/b"
+  /\ back_text false "s://h/a" "s://h/a/b/c" = txt "s://h/a/"
+  /\ back_text false "s://h/a" "s://h/a?q" = txt "s://h/a?q"
+  /\ back_text false "s:/a" "s:b" = txt "s:a"
+  /\ back_text true "s:a" "s:b" = txt "s:/a"
+  /\ back_text false "s://h/a/b" "s://h/a/./x" = txt "s://h/b".
+Proof. exact refuted_texts. Qed.
+Print Assumptions C10_refuted_texts.
+
+(* the classes of Proofs/Findings10.v the run-time check (gen/c10.py) files the five under *)
+Theorem C10_witness_classes :
+  c10_class false (uri_of "s://h/a/b") (uri_of "s://h/a") = 7
+  /\ c10_class false (uri_of "s://h/a") (uri_of "s://h/a/b/c") = 6
+  /\ c10_class false (uri_of "s://h/a") (uri_of "s://h/a?q") = 5
+  /\ c10_class false (uri_of "s:/a") (uri_of "s:b") = 4
+  /\ c10_class true (uri_of "s:a") (uri_of "s:b") = 3.
+Proof. exact witness_classes. Qed.
+Print Assumptions C10_witness_classes.
+
+(* the six witnesses are c10_good objects inside c10_failing_shape, one for each of its clauses *)
+Theorem C10_failing_shapes_inhabited :
+  in_failing_shape false "s://h/a/b" "s://h/a" = true
+  /\ in_failing_shape false "s://h/a" "s://h/a/b/c" = true
+  /\ in_failing_shape false "s://h/a" "s://h/a?q" = true
+  /\ in_failing_shape false "s:/a" "s:b" = true
+  /\ in_failing_shape true "s:a" "s:b" = true
+  /\ in_failing_shape false "s://h/a/b" "s://h/a/./x" = true.
+Proof. exact failing_shape_witnesses. Qed.
+Print Assumptions C10_failing_shapes_inhabited.
+
+(* two clauses that only objects can violate: a NUL in a common segment (uriCompareRange equates "a\0b"
+   and "a\0c", and the result takes the base's segment), and the host-less source whose path is the
+   single empty segment (dropped by resolution; harmless under same_target) *)
+Theorem C10_walk_ok_object_clauses_refuted :
+  (let s := obj (Some [104]) false [[97; 0; 98]; [120]] in
+   let b := obj (Some [104]) false [[97; 0; 99]; [121]] in
+   walk_ok_dotted s b = false /\ walk_ok_dotted (obj (Some [104]) false [[97; 98]; [120]]) (obj (Some [104]) false [[97; 98]; [121]]) = true
+   /\ back_path s b = [[97; 0; 99]; [120]])
+  /\ (let s := obj None true [[]] in
+      let b := obj None true [[97]] in
+      walk_ok_dotted s b = true /\ walk_ok s b = false /\ back_path s b = []).
+Proof. exact walk_ok_object_clauses. Qed.
+Print Assumptions C10_walk_ok_object_clauses_refuted.
+
+(* ---- F. the hypotheses are satisfiable ------------------------------------------------------------- *)
+(* walk_ok, the reference and the way back *)
+Example C10_ex_walk :
+  walk_ok (uri_of "s://h/a/b/c") (uri_of "s://h/a/x/y") = true
+  /\ one_kind (uri_of "s://h/a/x/y") = true
+  /\ auth_fields (uri_of "s://h/a/b/c") = auth_fields (uri_of "s://h/a/x/y")
+  /\ ref_text false "s://h/a/b/c" "s://h/a/x/y" = txt "../b/c"
+  /\ back_text false "s://h/a/b/c" "s://h/a/x/y" = txt "s://h/a/b/c".
+Proof. vm_compute. repeat split. Qed.
+
+(* the "." guard: a remaining source path beginning with an empty segment, or with a segment with ":" *)
+Example C10_ex_walk_guard :
+  walk_ok (uri_of "s://h/a//b") (uri_of "s://h/a/x") = true
+  /\ ref_text false "s://h/a//b" "s://h/a/x" = txt ".//b"
+  /\ back_text false "s://h/a//b" "s://h/a/x" = txt "s://h/a//b"
+  /\ walk_ok (uri_of "s://h/a/c:d") (uri_of "s://h/a/x") = true
+  /\ ref_text false "s://h/a/c:d" "s://h/a/x" = txt "./c:d"
+  /\ back_text false "s://h/a/c:d" "s://h/a/x" = txt "s://h/a/c:d".
+Proof. vm_compute. repeat split. Qed.
+
+(* host-less, rooted and rootless; user info and port *)
+Example C10_ex_walk_hostless :
+  walk_ok (uri_of "s:/a/b") (uri_of "s:/a/c") = true
+  /\ walk_ok (uri_of "s:a/b") (uri_of "s:a/c/d") = true
+  /\ ref_text false "s:a/b" "s:a/c/d" = txt "../b"
+  /\ walk_ok (uri_of "s://u@h:8/a/b") (uri_of "s://u@h:8/a/c") = true.
+Proof. vm_compute. repeat split. Qed.
+
+(* the two error cases and the schemes-differ case *)
+Example C10_ex_errors :
+  scheme (uri_of "//h/a") = None /\ scheme (uri_of "s://h/a") <> None
+  /\ range_eqb (scheme (uri_of "t://h/a")) (scheme (uri_of "s://h/a")) = false
+  /\ one_kind (uri_of "t://h/a") = true
+  /\ ref_text false "t://h/a" "s://h/a" = txt "t://h/a".
+Proof. vm_compute. repeat split. discriminate. Qed.
+
+(* scheme kept; other authority; whole authority shared *)
+Example C10_ex_omission :
+  (range_eqb (scheme (uri_of "s:/a")) (scheme (uri_of "s://h/b")) = true
+   /\ equals_authority (uri_of "s:/a") (uri_of "s://h/b") = false
+   /\ is_host_set (uri_of "s:/a") = false /\ is_host_set (uri_of "s://h/b") = true
+   /\ ref_text false "s:/a" "s://h/b" = txt "s:/a")
+  /\ (equals_authority (uri_of "s://u@h/a") (uri_of "s://h/a") = false
+      /\ ref_text false "s://u@h/a" "s://h/a" = txt "//u@h/a"
+      /\ back_text false "s://u@h/a" "s://h/a" = txt "s://u@h/a")
+  /\ (equals_authority (uri_of "s://h:8/a") (uri_of "s://h/a") = false
+      /\ ref_text false "s://h:8/a" "s://h/a" = txt "//h:8/a")
+  /\ (equals_authority (uri_of "s://u@h:8/a/b") (uri_of "s://u@h:8/c") = true
+      /\ auth_nonul (uri_of "s://u@h:8/a/b") = true
+      /\ ref_text false "s://u@h:8/a/b" "s://u@h:8/c" = txt "a/b").
+Proof. vm_compute. repeat split. Qed.
+
+(* domain-root mode, with the empty path under a host coming back as "/" *)
+Example C10_ex_domain_root :
+  ref_text true "s://h/a/b" "s://h/x/y" = txt "/a/b"
+  /\ back_text true "s://h/a/b" "s://h/x/y" = txt "s://h/a/b"
+  /\ ref_text true "s://h" "s://h/x" = txt "/"
+  /\ back_text true "s://h" "s://h/x" = txt "s://h/"
+  /\ lone_empty_hostless (uri_of "s://h") = false /\ wf (uri_of "s://h") = true
+  /\ ref_text true "s:/a" "s:b" = txt "/a"
+  /\ back_text true "s:/a" "s:b" = txt "s:/a".
+Proof. vm_compute. repeat split. Qed.
+
+(* the carved theorem is not vacuous: good objects outside the failing shapes, dot segments included *)
+Example C10_ex_carved :
+  c10_good (uri_of "s://u@h:8/a/../b/c?q#f") = true /\ c10_good (uri_of "s://u@h:8/b/x/y") = true
+  /\ c10_failing_shape false (uri_of "s://u@h:8/a/../b/c?q#f") (uri_of "s://u@h:8/b/x/y") = false
+  /\ ref_text false "s://u@h:8/a/../b/c?q#f" "s://u@h:8/b/x/y" = txt "../../a/../b/c?q#f"
+  /\ back_text false "s://u@h:8/a/../b/c?q#f" "s://u@h:8/b/x/y" = txt "s://u@h:8/b/c?q#f"
+  /\ c10_failing_shape true (uri_of "s://h/a") (uri_of "s://h/a?q") = false
+  /\ c10_failing_shape false (uri_of "s://h/a?p") (uri_of "s://h/a?q") = false
+  /\ ref_text false "s://h/a?p" "s://h/a?q" = txt "?p".
+Proof. vm_compute. repeat split. Qed.
+
+(* walk_ok_dotted with a dotted source *)
+Example C10_ex_walk_dotted :
+  walk_ok_dotted (uri_of "s://h/a/./b/../c") (uri_of "s://h/a/x") = true
+  /\ walk_ok (uri_of "s://h/a/./b/../c") (uri_of "s://h/a/x") = false
+  /\ back_text false "s://h/a/./b/../c" "s://h/a/x" = txt "s://h/a/c".
+Proof. vm_compute. repeat split. Qed.
